@@ -40,9 +40,10 @@ type Node struct {
 	ValueList bool     `json:"valuelist,omitempty"` // struct-backed Reflect: a slice of struct values ([]T), not pointers
 	When      string   `json:"when,omitempty"`      // when expression (only generated for the concurrent simulator's shared schema)
 	ConvSlice bool     `json:"convslice,omitempty"` // struct-backed Reflect: leaf-list field of a convertible, not identical, element type ([]int for int32)
+	Embed     bool     `json:"embed,omitempty"`     // struct-backed nodeutil.Node: the field lives in a struct embedded by value in the parent's struct (promoted field)
 	Module    string   `json:"module,omitempty"`    // defining module when not the main one ("g")
 	Bits      []string `json:"bits,omitempty"`
-	Rich      bool     `json:"rich,omitempty"` // module: emit the companion module g (identities, groupings)
+	Rich      bool     `json:"rich,omitempty"`      // module: emit the companion module g (identities, groupings)
 	RpcMirror bool     `json:"rpcmirror,omitempty"` // module: the same definitions once more as input of rpc zzin
 	Children  []*Node  `json:"children,omitempty"`
 
@@ -298,6 +299,10 @@ func (n *Node) yang(b *strings.Builder, d int) {
 		}
 	case Choice:
 		fmt.Fprintf(b, "choice %s {\n", n.Name)
+		if n.Default != "" {
+			ind(b, d+1)
+			fmt.Fprintf(b, "default %s;\n", n.Default)
+		}
 	case Case:
 		fmt.Fprintf(b, "case %s {\n", n.Name)
 	case Leaf, LeafList:
@@ -330,6 +335,10 @@ func (n *Node) yang(b *strings.Builder, d int) {
 			}
 		case "union":
 			b.WriteString("type union { type int32; type string; }\n")
+		case "unione":
+			// members the value converter has no direct case for come first; their
+			// labels and values are outside what the generator draws
+			b.WriteString("type union { type enumeration { enum zzu1 { value 1000001; } enum zzu2 { value 1000002; } } type int32; type string; }\n")
 		default:
 			fmt.Fprintf(b, "type %s;\n", n.Type)
 		}
@@ -368,20 +377,22 @@ func (n *Node) yang(b *strings.Builder, d int) {
 // Caps says what the store under test can represent, so that a generated
 // schema is one the store is documented to handle.
 type Caps struct {
-	Choices      bool
-	CompoundKeys bool
-	IntKeys      bool
-	Bools        bool // false for struct stores that cannot tell false from unset
-	LeafLists    bool
-	MapLists     bool // struct stores: some lists are Go maps
-	MaxDepth     int
-	MaxNodes     int
-	Defaults     bool
-	ListsInLists bool
-	Int64        bool
-	NoEnums      bool // struct-backed Reflect cannot read an unset string-typed enum field
-	ValueLists   bool // some slice lists hold struct values instead of pointers
-	ConvSlices   bool // some int32 leaf-lists are []int64 fields
+	Choices        bool
+	CompoundKeys   bool
+	IntKeys        bool
+	Bools          bool // false for struct stores that cannot tell false from unset
+	LeafLists      bool
+	MapLists       bool // struct stores: some lists are Go maps
+	MaxDepth       int
+	MaxNodes       int
+	Defaults       bool
+	ListsInLists   bool
+	Int64          bool
+	NoEnums        bool // struct-backed Reflect cannot read an unset string-typed enum field
+	ValueLists     bool // some slice lists hold struct values instead of pointers
+	ChoiceDefaults bool // choices may name a default case
+	Embeds         bool // struct-backed nodeutil.Node: some fields are promoted from an embedded struct
+	ConvSlices     bool // some int32 leaf-lists are []int64 fields
 }
 
 func FullCaps() Caps {
@@ -550,6 +561,10 @@ func (g *gen) choice(depth int, inList bool) *Node {
 		})
 		ch.Children = append(ch.Children, cs)
 	}
+	if g.caps.ChoiceDefaults && g.r.Chance(1, 3) {
+		// a default case (its leaves carry no defaults, so nothing is implied by it)
+		ch.Default = ch.Children[g.r.Intn(len(ch.Children))].Name
+	}
 	return ch
 }
 
@@ -594,6 +609,23 @@ func (g *gen) fill(p *Node, depth int, inList bool) {
 			p.Children = append(p.Children, g.leaf(false, false))
 		}
 	}
+	if g.caps.Embeds && g.r.Chance(1, 3) {
+		for _, c := range p.Children {
+			if c.Kind != Choice && !c.IsKeyOf(p) && g.r.Chance(2, 3) {
+				c.Embed = true
+			}
+		}
+	}
+}
+
+// IsKeyOf reports whether n is a key leaf of list l (usable before Link()).
+func (n *Node) IsKeyOf(l *Node) bool {
+	for _, k := range l.Keys {
+		if k == n.Name {
+			return true
+		}
+	}
+	return false
 }
 
 // Generate draws a module from the stream. opts.mustChoice forces at least
